@@ -4,6 +4,7 @@ import (
 	"fmt"
 	"math/rand/v2"
 	"strings"
+	"time"
 
 	"github.com/beevik/etree"
 	saml2 "github.com/russellhaering/gosaml2"
@@ -778,7 +779,21 @@ func runC01(c *mon.Ctx) {
 				return ""
 			}
 			s := sim.DocString(a.doc)
-			switch a.r.IntN(8) {
+			switch a.r.IntN(10) {
+			case 8, 9:
+				// text-level: repeated / shadowed ID attributes on an Assertion or on the root (not representable in a tree)
+				tag := pick(a.r, []string{"Assertion ", "Response "})
+				if i := strings.Index(s, tag+""); i >= 0 {
+					if j := strings.Index(s[i:], ` ID="`); j >= 0 && j < 400 {
+						ins := pick(a.r, []string{` ID="_evil_dup"`, ` xmlns:q="urn:q" q:ID="_evil_shadow"`, ` ID="` + a.root.SelectAttrValue("ID", "_r") + `"`})
+						at := i + j
+						if a.r.IntN(2) == 0 {
+							at = i + j + strings.Index(s[i+j+5:], `"`) + 6 // after the existing ID attribute
+						}
+						s = s[:at] + ins + s[at:]
+						a.note("dup-id-attr")
+					}
+				}
 			case 0:
 				s = "\xef\xbb\xbf" + s
 				a.note("bom")
@@ -826,6 +841,10 @@ func runC01(c *mon.Ctx) {
 			return string(b)
 		})
 	}
+	// key roll-over on a long-lived SP: content signed with a certificate that left the store is no longer honoured
+	rb := BaseTime(c.Seed)
+	runStoreRotation(c, c.N(200, 5000), rb, rb.Add(2*time.Hour), []string{"sso-resp", "sso-assert"})
+
 	// genuine control: the unmodified base document must be accepted by the same oracle path
 	for k := 0; k < c.N(200, 5000); k++ {
 		run("control:unmodified", k, func(a *atk) string {
